@@ -103,10 +103,6 @@ Example C03_example_vtt :
   lit "a--&gt;b &amp; &lt;c>" ++ [10] ++ lit "&nbsp;" ++ [10] ++ lit "&nbsp;".
 Proof. vm_compute. reflexivity. Qed.
 
-Definition ex_caps : list (str * list node) :=
-  [(lit "00:00:01,000 --> 00:00:02,000", [NText (lit "1"); NBreak; NBreak; NText (lit "00:00:05,000 --> x")]);
-   (lit "00:00:03,000 --> 00:00:04,000", [NBreak; NText (lit "b"); NBreak; NText []; NBreak])].
-
 Example C03_example_srt_hyp : Forall srt_cap_ok ex_caps.
 Proof. repeat constructor; try (vm_compute; reflexivity); vm_compute; discriminate. Qed.
 
